@@ -507,7 +507,11 @@ pub fn run_c11(cfg: &ShardCfg, out: &mut ShardOut) {
                                 merge: Op::Merge { h, left: gids[left_i], right: hids[0] },
                                 seed: k,
                             };
-                            let (v, nt, ops) = run_c11_case(&case, &mut out.counters, &cfg.work);
+                            let mut stray = crate::json::Counters::default();
+                            let Some((v, nt, ops)) = crate::shard::case_guard(&mut stray, || run_c11_case(&case, &mut out.counters, &cfg.work)) else {
+                                out.counters.inc("case.abandoned-by-stray-panic-from-code-under-test");
+                                continue;
+                            };
                             out.evaluations += 1;
                             out.counters.inc("c11.sweep-cases");
                             out.calls += ops.len() as u64;
@@ -532,7 +536,11 @@ pub fn run_c11(cfg: &ShardCfg, out: &mut ShardOut) {
             break;
         }
         let case = gen_c11_case(mix(&[cfg.seed, cfg.shard, j as u64, 11]), cfg.thorough);
-        let (v, nt, ops) = run_c11_case(&case, &mut out.counters, &cfg.work);
+        let mut stray = crate::json::Counters::default();
+        let Some((v, nt, ops)) = crate::shard::case_guard(&mut stray, || run_c11_case(&case, &mut out.counters, &cfg.work)) else {
+            out.counters.inc("case.abandoned-by-stray-panic-from-code-under-test");
+            continue;
+        };
         out.evaluations += 1;
         out.calls += ops.len() as u64;
         out.configs.insert((case.n, case.cap));
